@@ -1,9 +1,33 @@
 _Q = 'xdoctest.directive:RuntimeState.'
+_D = 'xdoctest.doctest_example:DocTest.'
 PROPERTY = {
     'id': 'C04',
-    'contract_modules': ['directive'],
-    'functions': [_Q + '__init__#concrete', _Q + '__getitem__', _Q + '__setitem__', _Q + 'update#concrete', _Q + 'set_report_style#concrete',
-                  'xdoctest.directive:Directive.effects', 'xdoctest.directive:_is_requires_satisfied'],
-    'clauses': {'P': [], 'T': []},
-    'explanation': 'C04 (under construction)',
+    'contract_modules': ['directive', 'doctest_example', 'util_stream', 'checker', 'doctest_part', 'runner'],
+    'functions': [_Q + '__init__#concrete', _Q + '__getitem__', _Q + '__setitem__', _Q + 'update#concrete',
+                  _Q + 'set_report_style#concrete', 'xdoctest.directive:Directive.effects',
+                  'xdoctest.directive:_is_requires_satisfied', _D + 'run',
+                  _Q + '__init__', _Q + 'update', _Q + 'set_report_style',
+                  'xdoctest.doctest_part:DoctestPart.directives', 'xdoctest.doctest_part:DoctestPart.has_any_code'],
+    'clauses': {
+        'P': ['RuntimeState.update, per effect (relational loop-body clauses): an inline directive leaves the persistent flags AND the '
+              'persistent REQUIRES set (object and members) unchanged; a block directive leaves the overlay unchanged; block assign / '
+              'set.add / set.remove change exactly that flag / member of the persistent state; inline assign writes the overlay; the first '
+              'inline REQUIRES effect gives the overlay its OWN copy of the persistent set (never the same object), later ones update that copy; '
+              'noop changes nothing; with no directive the overlay is empty afterwards (it is cleared at every update)',
+              'RuntimeState.__getitem__: overlay entry if present, else persistent entry (flags and the REQUIRES set); KeyError iff the key is unknown',
+              'RuntimeState.__init__: keys = defaults + given defaults, flags taken from the given defaults where present, an empty overlay, '
+              'and a REQUIRES set object of its own (shared neither with DEFAULT_RUNTIME_STATE nor with the argument)',
+              'Directive.effects: one effect per REQUIRES argument (noop iff the condition is met, else set.add / set.remove by sign, value = the argument); '
+              'REPORT_* -> noop / set_report_style; any other name -> one assign of the sign; every effect is keyed by the directive name',
+              'DocTest.run: a part is skipped -- nothing compiled, executed or checked, its index appended to _skipped_parts, unmatched '
+              'output untouched, no stdout logged -- iff after update(part.directives) SKIP is on or a REQUIRES condition is pending '
+              '(or it has no code); otherwise it is compiled and executed once'],
+        'T': ['_is_requires_satisfied (environment oracle)', 'set_report_style only touches REPORT_* entries (outside the quantifier)',
+              'run sees RuntimeState through abstract contracts (state value + pure lookup); the link to the concrete contracts above is by '
+              'reading, not mechanised', 'the tokenizer reports no comment inside string literals (Directive.extract / static.extract_comments)'],
+        'N/A': ['--options=+REQUIRES(x) stores a bare bool under REQUIRES (excluded by the precondition of __init__); '
+                'part breaks at directive statements are parser work (C13/C01.cover), not yet under contract'],
+    },
+    'explanation': 'C04 as the DirectiveSpec transition function proved effect by effect on the real update(), the lookup rule, '
+                   'fresh state per RuntimeState, and the skip decision of run.',
 }
